@@ -298,9 +298,55 @@ pub fn run_c14(ctx: &Ctx) {
     // live: what both clients really dial for ipp:// targets with explicit ports (request line, Host)
     crate::c11::live_c14(ctx, ctx.tier.pick(40, 400));
     crate::c11::live_userinfo(ctx);
+    // first octets on the wire per scheme, client and feature set (native-tls here, rustls-only in a
+    // second binary): a TLS handshake for ipps/https, an HTTP request line for ipp/http
+    ctx.append_rule(" Plus 16 live cases: for each scheme x client x feature set {native-tls, rustls-only (second binary)} the first octets a raw listener receives must be a TLS ClientHello for ipps/https and an HTTP request line for ipp/http.");
+    let mut results: Vec<(String, Result<(), (String, String)>)> = crate::c12::first_octets_native();
+    match std::env::var("VERIF_CHK_RUSTLS") {
+        Err(_) => ctx.inconclusive("VERIF_CHK_RUSTLS not set (run through ./check): rustls-only feature set not explored"),
+        Ok(exe) => match std::process::Command::new(exe).arg("C14").arg("child").output() {
+            Err(e) => ctx.inconclusive(&format!("spawn chk-rustls: {e}")),
+            Ok(out) => {
+                let text = String::from_utf8_lossy(&out.stdout);
+                match text.lines().find(|l| l.starts_with("RESULTS ")).and_then(|l| serde_json::from_str::<Value>(&l[8..]).ok()) {
+                    Some(v) => {
+                        for r in v.as_array().cloned().unwrap_or_default() {
+                            let id = r.get("id").and_then(|s| s.as_str()).unwrap_or("").to_string();
+                            let verdict = match r.get("verdict").filter(|v| !v.is_null()) {
+                                Some(v) => Err((v.get("sig").and_then(|s| s.as_str()).unwrap_or("C14/?").to_string(), v.get("msg").and_then(|s| s.as_str()).unwrap_or("").to_string())),
+                                None => Ok(()),
+                            };
+                            results.push((id, verdict));
+                        }
+                    }
+                    None => ctx.inconclusive("chk-rustls C14 child gave no results"),
+                }
+            }
+        },
+    }
+    for (id, verdict) in results {
+        ctx.eval();
+        ctx.nontrivial(hash64(&("first-octets", &id)));
+        ctx.label("live: first octets on the wire per scheme / client / feature set");
+        if let Err((sig, msg)) = verdict {
+            if sig.starts_with("infra/") {
+                ctx.inconclusive(&msg);
+            } else {
+                ctx.failure("first-octets", &Fail::new(sig, msg), json!({"first_octets": id}));
+            }
+        }
+    }
 }
 
 pub fn replay_c14(ctx: &Ctx, _sub: &str, case: &Value) -> Judge {
+    if case.get("first_octets").is_some() {
+        println!("a live first-octets case: re-run ./check C14 quick to re-judge it (it needs both binaries)");
+        let bad: Vec<_> = crate::c12::first_octets_native().into_iter().filter_map(|(id, v)| v.err().map(|e| (id, e))).collect();
+        return match bad.into_iter().next() {
+            Some((_, (sig, msg))) => Err(Fail::new(sig, msg)),
+            None => Ok(()),
+        };
+    }
     if case.get("live_userinfo").is_some() || case.get("live_uri_template").is_some() {
         crate::c11::use_empty_trust_store();
         let before = ctx.violation_count();
